@@ -260,3 +260,106 @@ def check_symplectic_init(reg, src, prop, name, m):
         reg.ground(pre + "no-cached-slopes-or-end-point", "post", "ExplicitSymplecticIntegrator.__init__", fresh and o.get("_explicit") is True and o.get("_adaptive") is False,
                    backend="symbolic-exec")
     return fi
+
+
+# ----------------------------------------------------------------------------------------------------------------
+# setters of OdeSystem (the "set dt / rtol / atol / tf / t0 / constants" operations of C13's histories; C05: tolerances reach the integrator)
+# ----------------------------------------------------------------------------------------------------------------
+def _run_state(st, made):
+    n = z3.Int("n_run")
+    st.assume(n >= 0)
+    t_arr, y_arr = z3.Array("t_run", z3.IntSort(), z3.RealSort()), z3.Array("y_run", z3.IntSort(), z3.RealSort())
+    method = st.new_obj("MethodClass", fields=dict(symplectic=False, is_implicit=ModuleRef("property-object")))
+    old_integ = st.new_obj("Integrator", fields=dict(fresh=False, dState=Opaque("dS"), dTime=Opaque("dT"), final_rhs=Opaque("cached"), rtol=Opaque("old_rtol"), atol=Opaque("old_atol")))
+    rhs = st.new_obj("DiffRHS", fields=dict(rhs=UFunc("f", "opaque"), nfev=z3.Int("nfev_run"), njev=z3.Int("njev_run"), equ_repr="<str>", md_repr="<str>"))
+    sol = st.new_obj("DenseOutput", fields=dict(t_eval=Opaque("te"), y_interpolants=Opaque("yi")))
+    events = st.new_obj("list", "list", items=[Opaque("ev1")])
+    tf, t0, dt0, dt = z3.Real("tf"), z3.Real("t0"), z3.Real("dt0"), z3.Real("dt_run")
+    st.assume(tf != t0)
+    st.assume(dt != 0)
+    fields = {"counter": n, "_OdeSystem__t": SeqVal(t_arr, n + 1), "_OdeSystem__y": SeqVal(y_arr, n + 1), "_OdeSystem__sol": sol, "_OdeSystem__dt": dt,
+              "_OdeSystem__int_status": 1, "_OdeSystem__events": events, "integrator": old_integ, "equ_rhs": rhs,
+              "_OdeSystem__tf": tf, "_OdeSystem__t0": t0, "_OdeSystem__method": method, "_OdeSystem__rtol": Opaque("rtol"), "_OdeSystem__atol": Opaque("atol"),
+              "_OdeSystem__consts": st.new_obj("dict", "dict", items={}), "staggered_mask": None, "_OdeSystem__dense_output": False, "_OdeSystem__dt0": dt0, "dim": (), "device": None,
+              "_OdeSystem__inferred_backend": "numpy", "_OdeSystem__array_con_kwargs": None}
+    return st.new_obj("OdeSystem", fields=fields), fields, old_integ
+
+
+def check_setters(reg, src, prop):
+    """rtol / atol / dt / tf / t0 / constants assigned on a system in an arbitrary run state: the setting takes the new value, a tolerance
+    change rebuilds the integrator from the *current* settings (nothing of the old integrator -- tolerances, cached slopes, controller
+    memory -- survives), dt / tf / t0 keep dt pointed from t0 toward tf, and nothing else changes (trajectory, events, status, counters)."""
+    out = []
+    RUN = ("counter", "_OdeSystem__t", "_OdeSystem__y", "_OdeSystem__sol", "_OdeSystem__int_status", "_OdeSystem__events", "equ_rhs")
+
+    def same(a, b):
+        return a is b or (z3.is_expr(a) and z3.is_expr(b) and a.eq(b)) or (isinstance(a, SeqVal) and isinstance(b, SeqVal) and a.arr.eq(b.arr) and z3.is_expr(a.length) and a.length.eq(b.length)) \
+            or (not z3.is_expr(a) and not z3.is_expr(b) and not isinstance(a, SeqVal) and a == b)
+    for attr in ("rtol", "atol", "dt", "tf", "t0", "constants"):
+        made = []
+        ex = Executor(src, reg, prop=prop)
+        ex.inline.update(["OdeSystem.__fix_dt_dir", "OdeSystem.initialise_integrator"])
+
+        def new_integrator(ex_, st_, ctx, args, kwargs, made=made):
+            r = st_.new_obj("Integrator", fields=dict(fresh=True, final_rhs=None, kwargs=dict(kwargs)))
+            made.append(r)
+            return r
+        ex.call_hooks["MethodClass.__call__"] = new_integrator
+        st = State()
+        selfobj, before, old_integ = _run_state(st, made)
+        before = dict(before)
+        fi = src.func(F, "OdeSystem.%s.setter" % attr)
+        out.append(fi)
+        tag = "OdeSystem.%s.setter" % attr
+        ctx = Ctx(fi, None, fi.cls, tag=tag)
+        newv = z3.Real("new_" + attr) if attr in ("dt", "tf", "t0") else (Opaque("new_" + attr) if attr != "constants" else st.new_obj("dict", "dict", items={"k": Opaque("v")}))
+        if attr == "dt":
+            st.assume(newv != 0)
+        paths = ex.setattr(selfobj, attr, newv, st, ctx)
+        pre = "%s/%s/" % (prop, tag)
+        normal = [(s, oc) for s, oc in paths if oc is None]
+        raising = [(s, oc) for s, oc in paths if oc is not None]
+        reg.ground(pre + "returns", "cover", tag, len(normal) >= 1, detail="%d normal, %d raising paths" % (len(normal), len(raising)))
+        reg.obligations[-1].expect = "unsat"
+        tf0, t00 = before["_OdeSystem__tf"], before["_OdeSystem__t0"]
+        for k, (s, oc) in enumerate(raising):
+            # tf / t0 refuse a value that would make the span empty, and then change nothing
+            o = s.obj(selfobj).fields
+            okexc = attr in ("tf", "t0") and oc[0] == "raise" and getattr(oc[1], "cls", None) == "ValueError"
+            reg.ground(pre + "raises-only-ValueError-for-an-empty-span#%d" % k, "post-exc", tag, okexc and all(same(o[f], before[f]) for f in before), backend="symbolic-exec",
+                       detail="exception %r; fields changed: %r" % (oc[1] if len(oc) > 1 else oc, [f for f in before if not same(o[f], before[f])]))
+            if okexc:
+                other = t00 if attr == "tf" else tf0
+                d = other - newv
+                ex.prove(s, ctx, z3.If(d >= 0, d, -d) <= ex.eps, "post-exc", "refused-only-when-the-span-would-be-empty#%d" % k)
+        for k, (s, oc) in enumerate(normal):
+            o = s.obj(selfobj).fields
+            changed = [f for f in before if not same(o[f], before[f])]
+            allowed = {"rtol": {"_OdeSystem__rtol", "integrator"}, "atol": {"_OdeSystem__atol", "integrator"}, "dt": {"_OdeSystem__dt"}, "tf": {"_OdeSystem__tf", "_OdeSystem__dt"},
+                       "t0": {"_OdeSystem__t0", "_OdeSystem__dt"}, "constants": {"_OdeSystem__consts"}}[attr]
+            reg.ground(pre + "frame#%d" % k, "frame", tag, set(changed) <= allowed and not (set(changed) & set(RUN)), backend="symbolic-exec",
+                       detail="fields changed: %r (allowed: %r); trajectory, events, status, dense output and counters untouched" % (changed, sorted(allowed)))
+            if attr in ("rtol", "atol"):
+                fld = "_OdeSystem__" + attr
+                integ = o["integrator"]
+                fresh = isinstance(integ, Ref) and integ in made and integ != old_integ
+                kw = s.obj(integ).fields.get("kwargs", {}) if fresh else {}
+                reg.ground(pre + "setting-stored#%d" % k, "post", tag, o[fld] is newv, backend="symbolic-exec")
+                reg.ground(pre + "integrator-rebuilt-from-the-current-settings#%d" % k, "post", tag,
+                           fresh and kw.get("rtol") is o["_OdeSystem__rtol"] and kw.get("atol") is o["_OdeSystem__atol"] and "dState" not in s.obj(integ).fields
+                           and s.obj(integ).fields.get("final_rhs") is None, backend="symbolic-exec",
+                           detail="a new integrator built with atol=, rtol= of the system after the assignment; nothing of the old integrator survives (its tolerances, cached slopes, controller memory)")
+            elif attr == "constants":
+                cur = o["_OdeSystem__consts"]
+                old_map = before["_OdeSystem__consts"]
+                reg.ground(pre + "setting-stored#%d" % k, "post", tag, isinstance(cur, Ref) and s.obj(cur).items.keys() == {"k"} and s.obj(newv).items.keys() == {"k"}
+                           and s.obj(old_map).items == {}, backend="symbolic-exec",
+                           detail="the system's constants are the new mapping's items; neither the caller's new mapping nor the one stored before is modified")
+            else:
+                tfn = newv if attr == "tf" else o["_OdeSystem__tf"]
+                t0n = newv if attr == "t0" else o["_OdeSystem__t0"]
+                if attr in ("tf", "t0"):
+                    ex.prove(s, ctx, o["_OdeSystem__" + attr] == newv, "post", "setting-stored#%d" % k)
+                mag = newv if attr == "dt" else before["_OdeSystem__dt"]
+                ex.prove(s, ctx, z3.Or(tfn == t0n, o["_OdeSystem__dt"] == oriented(mag, tfn, t0n)), "post", "dt-points-from-t0-toward-tf#%d" % k)
+    return out
